@@ -327,7 +327,7 @@ func checkEnumValueNoDeleteWithRules(
 				responseWriter.AddProtosourceAnnotation(
 					enum.Location(),
 					previousEnum.Location(),
-					previousEnum.File().Path(),
+					enum.File().Path(),
 					`Previously present enum value "%d" on enum %q was deleted%s.`,
 					previousNumber,
 					enum.Name(),
